@@ -33,6 +33,12 @@ What is PROVED here (each for all histories / schedules, no size bound), and abo
        the older form in which a `Drop(w)` is written as the `Receive(w, dropped)` calls it stands for and
        its effect on `writes` is a hypothesis (discharged by `C05.tracer_drop_detaches`, proved for every
        tracer state). The two are connected by `drop_refines` / `resolve_setW` in Proofs/TracerExit.lean.
+   Histories of these theorems contain no `Tracer.Receive(w, nil)` (discard – used by hand-written
+   nodes such as ext's try / pipe, by no node of pkg/node): C02's protocol and abstract tracer have no
+   discard. `C05.tracer_discard_answers_none` (concrete shapes, `decide`) and the harness's
+   fire-and-forget node (driver c05t, every run) cover it; the general statement is the unproved
+   `C05.tracer_no_residue_with_discards_full` (what is missing is said there); the variant of seeded
+   change c05h is `C05.tracer_c05h_residue`.
    That the real loops do end (readers / writers get closed at exit) is C03's teardown.
 
 What stays OBSERVED by the harness (harness/c05/flow.go, after a settle loop, on real workflows): that
@@ -52,6 +58,7 @@ import Uniflow.Proofs.PortMaps
 import Uniflow.Proofs.AgentProc
 import Uniflow.Proofs.TracerExit
 import Uniflow.Model.TracerC05c
+import Uniflow.Model.TracerC05h
 
 section LocalStore
 open Uniflow.Local
@@ -874,3 +881,122 @@ theorem C05.tracer_c05c_residue :
     isEmpty t3 = true ∧
     u3.reader = [(2, 0)] ∧ u3.reads = [] ∧ u3.writes = [] ∧ u3.receives = [] ∧ u3.panic = false ∧
     isEmpty u3 = false := by decide
+
+/-! ## `Tracer.Receive(w, nil)`: a discarded answer
+
+No node of pkg/node discards an answer, but hand-written nodes (ext's try / pipe) do:
+`Tracer.Receive(w, nil)` removes the slot the oldest packet written to `w` was waiting with
+(`discard`) instead of filling it. The tracer model has had `discard` from the start
+(`Uniflow.Tracer.discard`, `receiveW … none`); C02's call protocol and abstract tracer do not, so
+`C05.tracer_no_residue` / `_after_drops` speak about histories without discards. What is proved here
+is concrete (`decide`); the general statement is `C05.tracer_no_residue_with_discards_full` below. -/
+
+namespace C05tracer
+open Uniflow.Tracer Uniflow.ATracer
+
+/-- histories with discards, on the tracer model … -/
+inductive DCall where
+  | base (c : Call)
+  | discard (w : Wid)
+
+def tdcall (t : T) : DCall → T × List Ev
+  | .base c => tcall t c
+  | .discard w => receiveW true t w none
+
+/-- … and what a discard means abstractly: the packet is answered with nothing (`packet.None`). -/
+def adcall (a : A) : DCall → A × List Ev
+  | .base c => acall a c
+  | .discard w => aanswer a w .empty
+
+def tdrun : T → List DCall → T × List Ev
+  | t, [] => (t, [])
+  | t, c :: cs => let r := tdcall t c; let r' := tdrun r.1 cs; (r'.1, r.2 ++ r'.2)
+
+def adrun : A → List DCall → A × List Ev
+  | a, [] => (a, [])
+  | a, c :: cs => let r := adcall a c; let r' := adrun r.1 cs; (r'.1, r.2 ++ r'.2)
+
+def DProtocol : A → List DCall → Prop
+  | _, [] => True
+  | a, .base c :: cs => Pre a c ∧ DProtocol (acall a c).1 cs
+  | a, .discard w :: cs => DProtocol (aanswer a w .empty).1 cs
+
+/-- answers and events as numbers (the payload type has no decidable equality): `None` ↦ 0,
+atom k ↦ k + 1 -/
+def ansTag : Ans → Nat
+  | .empty => 0
+  | .pay (.atom k) => k + 1
+  | _ => 1000000
+
+def evTag : Ev → Nat × Nat
+  | .reply r a => (r, ansTag a)
+  | .hook p a => (1000000 + p, ansTag a)
+
+/-- request 1 forwarded unchanged (`Read; Write` of the same packet, no `Link`), one pending slot -/
+def sameFlight : List DCall := [.base (.read 0 1), .base (.write (some 1) 1 (.pay (.atom 1)) true)]
+
+/-- two requests forwarded unchanged to two different writers; the later one's answer is discarded
+while the earlier one is still waiting (the reader loop must keep it until its turn) -/
+def twoWriters : List DCall :=
+  [.base (.read 0 1), .base (.write (some 1) 1 (.pay (.atom 1)) true),
+   .base (.read 0 2), .base (.write (some 2) 2 (.pay (.atom 2)) true),
+   .discard 2, .base (.answer 1 (.pay (.atom 7)))]
+
+/-- a linked derived packet whose answer is discarded -/
+def linkedFlight : List DCall :=
+  [.base (.read 0 1), .base (.link 1 11), .base (.write (some 1) 11 (.pay (.atom 5)) true), .discard 1]
+
+end C05tracer
+
+open Uniflow.Tracer Uniflow.ATracer C05tracer in
+/-- **A discarded answer is answered with nothing, and leaves nothing.** On the fixed code (the key of
+`receives` stays, with an empty slice) `Receive(w, nil)` for a packet forwarded unchanged answers the
+requester with the join of nothing (`packet.None`) and empties the tracer; the same when the discarded
+request has to wait for an earlier one (`twoWriters`: replies come in read order, the discarded one as
+`None`), and for a linked derived packet; in all three the replies are those of the abstract reading
+"`discard w` = answer `w` with nothing" (`adrun`). -/
+theorem C05.tracer_discard_answers_none :
+    (tdrun {} (sameFlight ++ [.discard 1])).2.map evTag = [(0, 0)] ∧
+    isEmpty (tdrun {} (sameFlight ++ [.discard 1])).1 = true ∧
+    (tdrun {} twoWriters).2.map evTag = [(0, 8), (0, 0)] ∧
+    isEmpty (tdrun {} twoWriters).1 = true ∧
+    (tdrun {} (twoWriters.take 5)).2.length = 0 ∧
+    (aget (tdrun {} (twoWriters.take 5)).1.receives 2).isSome = true ∧
+    (getL (tdrun {} (twoWriters.take 5)).1.receives 2).length = 0 ∧
+    (tdrun {} linkedFlight).2.map evTag = [(0, 0)] ∧ isEmpty (tdrun {} linkedFlight).1 = true ∧
+    (tdrun {} (sameFlight ++ [.discard 1])).2.map evTag = (adrun {} (sameFlight ++ [.discard 1])).2.map evTag ∧
+    (tdrun {} twoWriters).2.map evTag = (adrun {} twoWriters).2.map evTag ∧
+    (tdrun {} linkedFlight).2.map evTag = (adrun {} linkedFlight).2.map evTag ∧
+    (adrun {} twoWriters).1.reqs.length = 0 ∧ (adrun {} twoWriters).1.bad = false := by decide
+
+open Uniflow.Tracer C05tracer in
+/-- **The c05h situation** as a counter-example of the variant tracer (`Uniflow.TracerC05h`: `discard`
+deletes the `receives` key when the slice becomes empty): for the request forwarded unchanged the
+reader loop finds no entry, breaks, and the requester is never answered; `reads` and `reader` keep the
+packet, also after the loop-end `Drop` – for ever. -/
+theorem C05.tracer_c05h_residue :
+    let t := (tdrun {} sameFlight).1
+    let u := Uniflow.TracerC05h.receiveW t 1 none
+    (receiveW true t 1 none).2.map evTag = [(0, 0)] ∧ isEmpty (receiveW true t 1 none).1 = true ∧
+    u.2.length = 0 ∧ u.1.reads = [(0, [1])] ∧ u.1.reader = [(1, 0)] ∧ u.1.receives.length = 0 ∧ u.1.writes = [] ∧
+    (dropW true u.1 1).2.length = 0 ∧ (dropW true u.1 1).1.reads = [(0, [1])] ∧ isEmpty (dropW true u.1 1).1 = false := by
+  decide
+
+open Uniflow.Tracer Uniflow.ATracer C05tracer in
+/-- Full statement for histories WITH discards: the tracer model (with `receiveW … none`) sends the
+replies of the abstract tracer in which a discard is an empty answer, and after the loop-end drops
+nothing mentions the process. NOT proved: `TRel` (C02's refinement relation, used by every lemma of
+Proofs/ATracer.lean) demands `receives[k] = [some None]` for a request completed by an empty answer,
+whereas after a discard the map holds `receives[k] = []` for as long as the request waits behind an
+earlier one (`twoWriters.take 5` above); the two agree on `hasNil` and on `joinCells`, which is all
+`resolve` reads, so the repair is to relax `TRel.recv` to that equivalence and re-run the refinement
+proof – a change to C02's ~2000 lines, not done here. Checked instead: the three shapes above by
+`decide`, and the harness's fire-and-forget node against this very model on every run. -/
+def C05.tracer_no_residue_with_discards_full : Prop :=
+  ∀ (cs : List DCall), DProtocol {} cs →
+    (tdrun {} cs).2 = (adrun {} cs).2 ∧ (tdrun {} cs).1.panic = false ∧
+    ∀ (Rp : Rid → Bool) (Wp : Wid → Bool) (ws : List Wid),
+      Settled Rp Wp (adrun {} cs).1 → (∀ w, Wp w = true → w ∈ ws) →
+      (∀ r, Rp r = true → aget (dropAll ws (tdrun {} cs).1).reads r = none) ∧
+      (∀ w, Wp w = true → aget (dropAll ws (tdrun {} cs).1).writes w = none) ∧
+      (∀ k r, aget (dropAll ws (tdrun {} cs).1).reader k = some r → Rp r = false)
